@@ -177,3 +177,39 @@ Section Spec.
     | _, _ => false
     end.
 End Spec.
+
+(** * Vocabulary of the isolation statement (protocol level, [Model.api_step])
+
+    The pairs (call, response) of a run that are ABOUT task [t]: the initiate that returned [t]
+    and every call addressed to [t].  [proj] keeps those pairs and re-addresses them to id 1,
+    the id a fresh loader instance gives its first task. *)
+Definition about (t : N) (c : acall) (x : aresp) : bool :=
+  match c with
+  | AInitiate _ _ => match x with AId t' => N.eqb t' t | _ => false end
+  | ARequired t' | ALoad t' _ _ | AEmit t' | AFree t' => N.eqb t' t
+  end.
+
+Definition ren_call (c : acall) : acall :=
+  match c with
+  | AInitiate f src => AInitiate f src
+  | ARequired _ => ARequired 1
+  | ALoad _ f src => ALoad 1 f src
+  | AEmit _ => AEmit 1
+  | AFree _ => AFree 1
+  end.
+
+Definition ren_resp (x : aresp) : aresp := match x with AId _ => AId 1 | y => y end.
+
+Fixpoint proj (t : N) (h : list acall) (rs : list aresp) : list (acall * aresp) :=
+  match h, rs with
+  | c :: h', x :: rs' =>
+      if about t c x then (ren_call c, ren_resp x) :: proj t h' rs' else proj t h' rs'
+  | _, _ => []
+  end.
+
+(** the calls that give a fresh instance the files of task [x] (root first, as initiate does) *)
+Definition fresh_acalls (x : task) : list acall :=
+  match t_files x with
+  | [] => []
+  | (_, s0) :: rest => AInitiate (t_root x) s0 :: map (fun kv => ALoad 1 (fst kv) (snd kv)) rest
+  end.
